@@ -30,6 +30,11 @@ import RuxModel.Model.Dispatch
               `aw:<code>` = `c.AbortWithStatus(code)` = `c.Resp.WriteHeader(code); c.Abort()`: for the model `wh:<code>,ab`;
               `am:<code>:<msg>` = `c.AbortWithStatus(code, msg)` = `http.Error(c.Resp, msg, code); c.Abort()`: WriteHeader
               and one Write of `msg + "\n"` on `c.Resp` (response headers are not modelled): `wh:<code>,wr:<msg 0a>,ab`
+              `hj` (route handlers only: the handler hijacks the connection) and `nr:<n>` (anywhere: the handler or hook
+              serves a nested request through the router while it runs) are outside the model as well: the tokens are
+              dropped; a request to a route with such a handler is answered `unsupported`, and after a `use` /
+              `notfound` / `notallowed` / `onerror` / `onpanic` line with `nr` every request is (the harness checks
+              these with its oracles: pooled-context identity, fresh-router twin).
   panic value pv = s.<hex> | e.<hex> | i.<int> | rn | ri | h.<name>.<hex> | w.<name>.<hex>
               (h/w: an error sentinel of net/http, io, context, bare or wrapped; for the model an error with that text)
   answer to serve:  <ret | panic:<pv> | unsupported> t=<trace> l=<writer log> ;; pr=0
@@ -164,8 +169,17 @@ def expandAbort (t : String) : List String :=
   | ["am", c, m] => ["wh:" ++ c, "wr:" ++ (if m = "-" then "" else m) ++ "0a", "ab"]
   | _ => [t]
 
+def isNR (t : String) : Bool :=
+  match t.splitOn ":" with
+  | ["nr", n] => n.toNat?.isSome && n.length ≤ 6 && n.all Char.isDigit
+  | _ => false
+
+def hasNR (s : String) : Bool := (s.splitOn ",").any isNR
+
+def hasHJ (s : String) : Bool := (s.splitOn ",").any (· = "hj")
+
 def actToks (s : String) : List String :=
-  ((s.splitOn ",").filter (fun t => t ≠ "kc" && !isSH t)).flatMap expandAbort
+  ((s.splitOn ",").filter (fun t => t ≠ "kc" && !isSH t && !isNR t && t ≠ "hj")).flatMap expandAbort
 
 def parseSHandler (s : String) : Option (List SAct) :=
   if s = "-" then some [] else (actToks s).mapM parseSAct
@@ -196,7 +210,8 @@ structure DState where
   cfg : Cfg := { rid := 0, hook := none, onError := none }
   pool : List Ctx := []
   seq : Nat := 0
-  shRoutes : List Nat := []    -- routes with a `sh` action in one of their handlers (outside the model)
+  shRoutes : List Nat := []    -- routes with a `sh` / `hj` / `nr` action in one of their handlers (outside the model)
+  nestedAll : Bool := false    -- a global / 404 / 405 / hook handler serves nested requests: every request is outside
 
 def parseShape : String → Option Shape
   | "s" => some .s | "d1" => some .d1 | "d2" => some .d2 | "ir" => some .ir | _ => none
@@ -286,18 +301,24 @@ def dispatchStepSH (s : DState) (toks : List String) : DState × String :=
   match toks with
   | "route" :: id :: _ :: _ :: hs =>
     let r := dispatchStep' s toks
-    if r.2 = "ok" && hs.any hasSH then
+    if r.2 = "ok" && hs.any (fun h => hasSH h || hasNR h || hasHJ h) then
       match id.toNat? with
       | some i => ({ r.1 with shRoutes := i :: r.1.shRoutes }, "ok")
       | none => r
     else r
   | ["serve", "r", id, v1, v2] =>
+    if s.nestedAll then ({ s with seq := s.seq + 1 }, "unsupported") else
     match id.toNat?, Bytes.ofHex v1, Bytes.ofHex v2 with
     | some i, some _, some _ =>
       if s.shRoutes.contains i && (s.routes.any (·.id = i)) then ({ s with seq := s.seq + 1 }, "unsupported")
       else dispatchStep' s toks
     | _, _, _ => dispatchStep' s toks
-  | _ => if (toks.drop 1).any hasSH then (s, "bad-op") else dispatchStep' s toks
+  | "serve" :: _ => if s.nestedAll then ({ s with seq := s.seq + 1 }, "unsupported") else dispatchStep' s toks
+  | _ =>
+    if (toks.drop 1).any (fun h => hasSH h || hasHJ h) then (s, "bad-op")
+    else
+      let r := dispatchStep' s toks
+      if r.2 = "ok" && (toks.drop 1).any hasNR then ({ r.1 with nestedAll := true }, "ok") else r
 
 def dispatchStep (s : DState) : List String → DState × String
   | ["new", _caching, mna] => ({ started := true, mna := mna = "1" }, "ok")
